@@ -145,6 +145,7 @@ def candidates(rng, t, opts, st, depth):
         if t == 'i':
             A((0.8, ['scan', 'acc_npvec', 'npvec', red(), None]))
         A((0.8, ['scan', 'acc_append_any', rng.choice(['list_partial', 'list_callable_object', 'list_lru']), red(), None]))
+        A((0.8, ['scan', 'acc_sentinel', 'sentinel_factory', red(), None]))
         if not no_completion:
             A((1, ['scan', 'acc_append_new', 'list', rng.random() < 0.5, 'term_mark']))
         A((2, ['count', red()]))
